@@ -148,6 +148,21 @@ def handle : List String → Verdict
       { predfail := if reg == served then none else some s!"stylesheet endpoint serves {served}, registered {reg}",
         nontrivial := !reg.isEmpty, tags := ["stylesheet"], sig := "stylesheet" }
     | _, _ => .badOp
+  | ["before", name, tagH, needlesS, docH] =>
+    match hexField tagH, (needlesS.splitOn ";").mapM hexField, hexField docH with
+    | some tag, some needles, some doc =>
+      let idxOf := fun (pat : Bytes) =>
+        let rec goB (fuel i : Nat) (b : Bytes) : Option Nat :=
+          match fuel, b with
+          | 0, _ => none
+          | _, [] => none
+          | fuel + 1, x :: rest => if List.isPrefixOf pat (x :: rest) then some i else goB fuel (i + 1) rest
+        goB (doc.length + 1) 0 doc
+      let missing := needles.filter fun n => match idxOf n, idxOf tag with | some a, some t => !(a < t) | _, _ => true
+      { predfail := if missing.isEmpty then none else
+          some s!"{name}: the element is rendered without its definitions in front of it: {missing.map fun m => String.ofList (m.map fun c => Char.ofNat c.toNat)} not found before the tag",
+        nontrivial := true, tags := ["before:" ++ name], sig := "before;" ++ name }
+    | _, _, _ => .badOp
   | ["hoist", cS, dS, docH] =>
     match hexField docH with
     | some doc =>
